@@ -88,6 +88,33 @@ CHECKS = {
          "DESIGN.md §4 C11"),
 }
 
+
+# what the seeded rounds and the helper agents' widening passes added to each check (mirrors DESIGN.md §4 'Added later')
+ADDED = {'C01': 'one output tag emitting trusted and untrusted values in turn; block bodies that are one bare output tag; after the helper-agent pass: 45 bases (promoted / embedded / interface- and pointer-typed fields, nested collections, collections of `template.HTML` / HTMLer, helpers returning `(string, error)` / slices / structs), *weak* bases (`*string`, named string types, `Interface()` wrappers: asserted only "escaped like its tag or not printed, never verbatim"), 28 wraps, 62 sinks (else-if, `continue` / `break` after the tag in slice / map / iterator loops, blocks executed twice, `BlockWith` arguments, the built-in `debug` helper, trust alternating through one block / partial / function), phase N (the tag inside up to 4 nested block constructs, exhaustive to depth 2) and phase H (one parsed template executed 2–5 times while the payload\'s type and text change, also through the cache).',
+ 'C02': 'E1 with four kinds of neighbouring tag and 7 more block frames; E3 every ordered pair of two short string literals in one template; E4 every short comment body in 7 frames; E5 every ordered pair (quick: also triples) of 34 representative segments in 12 surroundings; E6 depth and width (7 nesting kinds to depth 1500 [5000], 20 000 tags in a row, 1 MiB of text); R1 random raw bytes with tags inserted; every segment case is also parsed once and executed three times with other values, and every output is compared only after an unrelated longer render (aliased buffers).',
+ 'C04': "the pool grew to ~370 values (slices / arrays / maps of interfaces, keys that are comparable by type but not by value, NaN keys, embedded interfaces and unexported structs, pointer chains and cycles, library types, plush's own types, ~95 more function signatures, values that contain themselves - rendered in a child process), nine more matrices (assignment targets, index / call chains, odd loop bodies, prefix operators, other context implementations, shared data maps, re-execution, sweeps) and `endless` (programs that never end on their own: recursion of functions, stored blocks, partials).", 'C05': 'fault kind `helper error wrapping an unknown-identifier error`; fault positions in map- and iterator-loop bodies; comparison with the reference up to entity spelling.',
+ 'C06': 'floats whose printed form has an exponent; SEQUENCES: one expression over `p`, `q` evaluated 2–4 times in one render (function called per operand pair / loop over pairs) with operand kinds changing - every ordered pair (A, B) of 21 operand pairs that have a value evaluated A, B, A for all 13 operators, value pair then error pair, random shapes.',
+ 'C07': 'arithmetic / concatenation conditions; names tested while unknown and bound later; nil slices / maps / funcs (truthy); SWEEPS: one set of six test sites evaluated for several values in turn (loop body / function body), every ordered pair of 44 passable kinds as A, B, A.',
+ 'C08': 'inner loops reusing outer names; collections holding nil with top-level variables named like the loop variables; after the helper-agent pass 68 iterable kinds (zero-valued elements, bool / uint8 / array / struct / pointer / interface / NaN keys told apart by value markers, named types, `*map`, elements that are themselves iterable, loop heads naming the iterable through fields / methods / index / calls, value-receiver and func-kind iterators), ~57 fixed bodies, compact layout, 6 alternative variable name sets, lengths 17…257, one parsed template executed as A, B, A, six nesting shapes to depth 1500 [5000], a wrapping `hctx.Context`.',
+ 'C09': 'constructs entered twice; stored blocks replayed in deeper scopes; every stored block and partial used a second time without data.',
+ 'C11': 'one path evaluated repeatedly with a changing inner index (sweeps); after the helper-agent pass a recursive Node family (every hop sequence of length ≤ 3 × 4 tails, long paths), an Ext family (embedded structs, 2–3 consecutive indexes, JSON-like nests, heterogeneous slices, named slice / map types with methods, pointer to array), arguments renamed after members used earlier in the path, one parsed template re-executed against data of the other recipe, bulk (1100 evaluations in one render).',
+ 'C12': 'one call site executed for 2–3 signatures; the recorder writes into every empty options map it receives; after the helper-agent pass more parameter types, 18 more argument kinds, 21 result shapes, six ROUTES to the function (name, pointer, slice element, map value, method through pointer / value), four USES of the value, TREES (several calls in one template: sequences, calls as arguments of calls with blocks, calls inside blocks three deep, inside loops entered several times, loops of 550–1100 iterations).',
+ 'C13': 'prepended cache-buster; self-including partial; same partial name with different feeder text.',
+ 'C14': 'data values that differ per execution; page + layout executed on one context per goroutine; assignment to names that live in the shared parent.',
+ 'C15': '`<%#` directly followed by a newline; forgiven failures in earlier statements and in the same statement as the failing expression; a message may span lines.',
+ 'C16': 'same-function calls and nil in argument position; call sequences over 2–3 functions (direct, higher-order, parameter named like a called function, rebound aliases); recursion that reads parameters and lets after the inner call returned.',
+ 'C17': 'the data map held in a variable and used by two calls (partial and contentOf); after the helper-agent pass directory parts and double extensions in names, content types with parameters, a second call of the same partial with other data, five block-helper variants (block twice / never / `BlockWith` with data / after an argument / as a method), calls in silent tags, `let r = CALL` inserted twice, a leak sensor after contentOf, 16 content operations, boundaries (empty bodies, yield-only layouts, one call site executed 1100 times), each random tree also rendered twice through the cache.',
+ 'C18': 'several line comments in a row; operators glued to their operands; source-level programs with spellings the printer never produces (numbers with a leading dot).',
+ 'C19': 'slices with spare capacity; arrays among the `len` arguments.',
+ 'C20': '2–4 helper results held while later calls run (Go values, let bindings, block parts); NUL may be dropped by htmlEscape.'}
+
+# notes that replace the first-version notes where the checks outgrew them
+NOTES = {
+ 'C03': "Trusts the H2 token budget (verif tag) as the non-termination detector for token-pulling loops and Go's recover for panics; enumerated inputs up to 64 KiB, plus the hostile-size phase (megabytes of nesting / openers / comments). A fatal stack overflow kills the test process: exit 2, not a VIOLATION.",
+ 'C04': "A fatal stack overflow or a runaway allocation cannot be recovered in-process: cases that mention a value that contains itself, and the programs that never end on their own, are rendered in a child process whose death is reported as a failure; anything else of that kind surfaces as an inconclusive run (exit 2). range/between/until are iterated with small arguments only.",
+ 'C07': "Truth table taken from the property statement; the zero values of slice, map and func types count as 'every other value' (truthy); five kinds the statement is silent about are checked for uniformity only.",
+}
+
 NOT_BUILT = "check not built yet in this session (see DESIGN.md §4 for its plan); will be claimed once its check is committed"
 
 def main():
@@ -113,6 +140,10 @@ def main():
     for pid in props:
         if pid in CHECKS:
             tech, text, note, ref = CHECKS[pid]
+            if pid in ADDED:
+                text += " Added since the first version: " + ADDED[pid]
+                tech += "; widened by four rounds of independently seeded breaking changes and a helper-agent pass (see DESIGN.md §4 'Added later', §7)"
+            note = NOTES.get(pid, note)
             m["checks"].append({
               "property_id": pid,
               "quick_cmd": "./check %s quick" % pid,
